@@ -39,6 +39,7 @@ type Path struct {
 	undo      []undoEntry
 	image     *Term
 	imgWrites int
+	imgLog    []*Term // address of every byte stored into the image, in order
 	steps     int
 	nondets   map[string]*Term
 	nondetOrd []string
